@@ -20,11 +20,13 @@ Inductive expr :=
 | ESubscript (value slice : expr)
 | EBinOp (bitor : bool) (l r : expr)
 | EUnaryOp (operand : expr)
+| EBoolOp (values : list expr)
+| ESet (elts : list expr)
 | ECompare (l : expr) (comparators : list expr)
 | EYield (value : option expr) (line : N)
 | EYieldFrom (value : expr) (line : N)
 | EAwait (value : expr)
-| EOther (children : list expr).                       (* BoolOp, Set, Lambda, IfExp, comprehensions, f-strings, ... *)
+| EOther (children : list expr).                       (* Lambda, IfExp, comprehensions, f-strings, starred, ... *)
 
 Record arg := mk_arg { ar_name : string; ar_line : N; ar_col : N; ar_default : bool; ar_annotated : bool }.
 
